@@ -4,7 +4,7 @@ from common import *
 import asmk
 
 PROP = "C12"
-DIRS = ["/w/src", "/w/src/sub", "/w/lib1", "/w/lib2", "/w/other"]
+DIRS = ["/w/src", "/w/src/sub", "/w/lib1", "/w/lib2", "/w/other", "/w"]
 NAMES = ["a.inc", "b.inc", "sub/a.inc", "../lib2/b.inc", "c.inc"]
 
 def gen_tree(rng):
@@ -17,10 +17,13 @@ def gen_tree(rng):
         lines = []
         if level < 3:
             for _ in range(rng.randrange(0, 3)):
-                if rng.random() < 0.75:
+                k = rng.random()
+                if k < 0.65:
                     lines.append(('include', rng.choice(NAMES)))
-                else:
+                elif k < 0.85:
                     lines.append(('incbin', rng.choice(["d.bin", "sub/d.bin"])))
+                else:
+                    lines.append(('each', ''))     # a macro-like expansion inside the file (pushes and pops token sources)
         files[path] = ('src', i, lines, level)
     for d in DIRS:
         for n in ["a.inc", "b.inc", "c.inc"]:
@@ -70,6 +73,8 @@ def expand(files, path, paths, depth=0, seen=None):
     out = bytearray([ident])
     cur = os.path.dirname(path)
     for d, name in lines:
+        if d == 'each':
+            continue
         p = resolve(files, cur, paths, name)
         if p is None:
             raise Missing
@@ -89,6 +94,9 @@ def source_text(f):
     # its directives: inclusion is textual, so all of them belong to the root's global label
     t = (["Root0:"] if ident == 0xAA else []) + ["@db %d" % ident, ".f%d:" % ident]
     for j, (d, name) in enumerate(lines):
+        if d == 'each':
+            t.append("@each zq%d_%d, { 1 2 3 }\n@endeach\n@db @string { \"\" }" % (ident, j))
+            continue
         t.append('@%s "%s"' % (d, name))
         t.append("@db $fe")
         t.append(".a%d_%d: @dw 0 - ( .f%d - .f%d )" % (ident, j, ident, ident))
@@ -113,7 +121,7 @@ def run(ck):
         attempts += 1
         files = gen_tree(rng)
         npaths = rng.randrange(0, 4)
-        paths = rng.sample(DIRS[1:], npaths)
+        paths = rng.sample(DIRS, npaths)
         root_dir = rng.choice(["/w/src", "/w/src", "/w/lib1"])
         files[root_dir + "/main.asm"] = ('src', 0xAA, [(rng.choice(['include', 'include', 'incbin']), rng.choice(NAMES + ["d.bin"]))
                                                     for _ in range(rng.randrange(1, 4))], 0)
